@@ -203,6 +203,21 @@ pub struct Report {
     pub extra: BTreeMap<String, Value>,
 }
 
+/// What the budgets count: the CPU time the process has consumed divided by the number of worker
+/// threads, or the wall time since `start` if that is less.  On an idle machine with the pool busy the
+/// two agree; on a machine busy with other work the wall time grows and the CPU time does not, and a
+/// budget on wall time would cut a search short (and lose its witnesses) for reasons that have nothing
+/// to do with the tree under test.  A runaway search burns CPU and is still stopped.
+pub fn effective_secs(start: Instant) -> f64 {
+    let wall = start.elapsed().as_secs_f64();
+    let cpu = crate::ambient::process_cpu_ns() as f64 / 1e9 / rayon::current_num_threads().max(1) as f64;
+    if cpu > 0.0 {
+        wall.min(cpu)
+    } else {
+        wall
+    }
+}
+
 pub struct Ctx {
     pub prop: String,
     pub tier: Tier,
@@ -212,8 +227,9 @@ pub struct Ctx {
 }
 
 impl Ctx {
+    /// time spent so far as the budgets count it (see `effective_secs`)
     pub fn elapsed(&self) -> f64 {
-        self.start.elapsed().as_secs_f64()
+        effective_secs(self.start)
     }
     /// wall budget of the tier in seconds (engines stop expanding and report a cap when exceeded)
     pub fn budget_s(&self) -> f64 {
